@@ -21,6 +21,9 @@
 //     attribute order) used for "permuted copy" identity cases;
 //   - pool.go: hand written base models per dialect that together hold every feature the differs look at,
 //     fixed-seed derived models, and the small constructors (Col, Idx, FK, Chk, …) they are written with;
+//   - names.go: identifier rules per dialect (IdentFold, NameVariants), the name collision edits
+//     (CaseCatalogue: siblings whose names differ only by letter case, Unicode case / normalisation or a
+//     trailing blank) and the models that hold such siblings (CasePool); kept out of Catalogue / Pool;
 //   - alphabet.go: the value alphabets (types, defaults, charsets, engines, comments, actions) of the pool
 //     and of the edits, and the per-dialect type constructors T(d).Int(), T(d).Str(20), ….
 //
@@ -461,6 +464,9 @@ func (m *Model) referencedBy(t *Table, col string, self bool) []string {
 // unique names, resolvable references, consistent column/expression dependencies, dialect-only
 // features used only on their dialect, and the soundness conventions of the package documentation.
 func (m *Model) Validate() error {
+	if err := m.validateNames(); err != nil {
+		return err
+	}
 	tn := map[string]bool{}
 	en := map[string]bool{}
 	for _, e := range m.Enums {
